@@ -564,6 +564,7 @@ func named() (r int) {
 }
 
 func deferInBody() (s string) {
+	defer func() { s += "d" }()
 	for i := range count(3) {
 		defer func() { s += itoa(i) }()
 	}
